@@ -81,6 +81,12 @@ def _regress(mod, prop):
     return out
 
 
+def _trim(tb):
+    lines = tb.splitlines()
+    keep = [l for l in lines if l.startswith("  File \"/verif") or (l and not l.startswith(" "))]
+    return "\n".join(keep[:60])[:3000]
+
+
 def load_known():
     p = os.path.join(VERIF, "known_findings.json")
     if not os.path.exists(p):
@@ -164,7 +170,7 @@ def main(argv=None):
     harness_errors = [r for r in results if "harness_error" in r]
     if harness_errors:
         for r in harness_errors:
-            print(f"--- harness error in shard {r['shard']}:\n{r['harness_error'][-1500:]}")
+            print(f"--- harness error in shard {r['shard']}:\n{_trim(r['harness_error'])}")
         print(f"HARNESS-ERROR property={prop}")
         return 2
 
